@@ -282,6 +282,100 @@ def desugar_combinators(m, prog=None):
     return m
 
 
+def has_for_each(m):
+    return any(b["term"]["k"] == "call" and (b["term"].get("callee") or {}).get("path") == "std::iter::Iterator::for_each" for b in m["blocks"])
+
+
+def desugar_for_each(m, prog):
+    """`iter.for_each(closure)` with a closure created in this function is rewritten to the loop it abbreviates
+           loop { match iter.next() { Some(x) => closure(x), None => break } }
+    (std's definition), the closure becoming an ordinary call that the inliner splices in; `a.chain(once(y)).for_each(f)` is
+    `a.for_each(f); f(y)`.  A `for` loop turned into `for_each` (or back) is then the same program for every rule."""
+    if not has_for_each(m):
+        return
+    cdefs = _closure_defs(m)
+    defcall = {}
+    for bi, b in enumerate(m["blocks"]):
+        t = b["term"]
+        if t["k"] == "call" and "callee" in t and not t["dest"]["p"]:
+            defcall.setdefault(t["dest"]["l"], []).append(bi)
+
+    def plain(op):
+        return op["k"] != "const" and not op["place"]["p"]
+    n0 = len(m["blocks"])
+    for bi in range(n0):
+        b = m["blocks"][bi]
+        t = b["term"]
+        if b.get("cleanup") or t["k"] != "call" or (t.get("callee") or {}).get("path") != "std::iter::Iterator::for_each" or t.get("target") is None \
+                or len(t["args"]) != 2 or not plain(t["args"][0]) or not plain(t["args"][1]):
+            continue
+        it_op, clo_op = t["args"]
+        ck = cdefs.get(clo_op["place"]["l"])
+        if ck is None or prog is None or ck not in prog.fns or prog.fns[ck]["mir"]["arg_count"] != 2:
+            continue
+        cm = prog.fns[ck]["mir"]
+        envty, item_ty = cm["locals"][1]["ty"], cm["locals"][2]["ty"]
+        if not envty.startswith("&"):
+            continue                        # an FnOnce-style by-value environment cannot be called per element
+        loc = t.get("loc", {"file": "", "line": None})
+        srcs = [("iter", it_op)]
+        dc = defcall.get(it_op["place"]["l"], [])
+        if len(dc) == 1:
+            ct = m["blocks"][dc[0]]["term"]
+            if (ct.get("callee") or {}).get("path") == "std::iter::Iterator::chain" and len(ct["args"]) == 2 and plain(ct["args"][0]) and plain(ct["args"][1]) \
+                    and ct.get("target") is not None:
+                odc = defcall.get(ct["args"][1]["place"]["l"], [])
+                if len(odc) == 1:
+                    ot = m["blocks"][odc[0]]["term"]
+                    if (ot.get("callee") or {}).get("path") == "std::iter::once" and len(ot["args"]) == 1 and ot.get("target") is not None:
+                        srcs = [("iter", ct["args"][0]), ("once", ot["args"][0])]
+                        m["blocks"][dc[0]]["term"] = {"k": "goto", "target": ct["target"], "loc": ct.get("loc")}
+                        m["blocks"][odc[0]]["term"] = {"k": "goto", "target": ot["target"], "loc": ot.get("loc")}
+
+        def new_local(ty):
+            m["locals"].append({"ty": ty, "mut": True})
+            return len(m["locals"]) - 1
+
+        def closure_call(arg_op, target):
+            l_e = new_local(envty)
+            l_u = new_local("()")
+            stmts = [{"k": "assign", "place": {"l": l_e, "p": [], "ty": envty},
+                      "rv": {"k": "ref", "mut": envty.startswith("&mut "), "place": {"l": clo_op["place"]["l"], "p": [], "ty": clo_op["place"]["ty"]}}, "loc": loc}]
+            callee = {"path": ck, "full": ck, "local": True, "name": "{closure}", "substs": [], "rkind": "item", "resolved": ck, "rlocal": True, "synth": True}
+            term = {"k": "call", "callee": callee, "args": [{"k": "move", "place": {"l": l_e, "p": [], "ty": envty}}, arg_op],
+                    "dest": {"l": l_u, "p": [], "ty": "()"}, "target": target, "unwind": None, "loc": loc}
+            return stmts, term
+        # build from the last source backwards so that each knows where to continue
+        nxt = t["target"]
+        for kind, op in reversed(srcs):
+            if kind == "once":
+                stmts, term = closure_call(op, nxt)
+                m["blocks"].append({"stmts": stmts, "term": term})
+                nxt = len(m["blocks"]) - 1
+            else:
+                ity = op["place"]["ty"]
+                l_it, l_r, l_n, l_d, l_x = new_local(ity), new_local("&mut " + ity), new_local("std::option::Option<%s>" % item_ty), new_local("isize"), new_local(item_ty)
+                h = len(m["blocks"])
+                # entry block: bind the iterator, jump to the head
+                entry = {"stmts": [{"k": "assign", "place": {"l": l_it, "p": [], "ty": ity}, "rv": {"k": "use", "op": op}, "loc": loc}],
+                         "term": {"k": "goto", "target": h + 1}}
+                head = {"stmts": [{"k": "assign", "place": {"l": l_r, "p": [], "ty": "&mut " + ity}, "rv": {"k": "ref", "mut": True, "place": {"l": l_it, "p": [], "ty": ity}}, "loc": loc}],
+                        "term": {"k": "call", "callee": {"path": "std::iter::Iterator::next", "full": "<%s as std::iter::Iterator>::next" % ity, "local": False, "name": "next",
+                                                         "substs": [ity], "trait": "std::iter::Iterator", "self_ty": ity, "rkind": "item",
+                                                         "resolved": "<%s as std::iter::Iterator>::next" % ity, "rlocal": False},
+                                 "args": [{"k": "move", "place": {"l": l_r, "p": [], "ty": "&mut " + ity}}], "dest": {"l": l_n, "p": [], "ty": "std::option::Option<%s>" % item_ty},
+                                 "target": h + 2, "unwind": None, "loc": loc}}
+                test = {"stmts": [{"k": "assign", "place": {"l": l_d, "p": [], "ty": "isize"}, "rv": {"k": "discr", "place": {"l": l_n, "p": [], "ty": "std::option::Option<%s>" % item_ty}}, "loc": loc}],
+                        "term": {"k": "switch", "discr": {"k": "move", "place": {"l": l_d, "p": [], "ty": "isize"}}, "discr_ty": "isize", "targets": [[0, nxt]], "otherwise": h + 3, "loc": loc}}
+                stmts, term = closure_call({"k": "move", "place": {"l": l_x, "p": [], "ty": item_ty}}, h + 1)
+                bodyb = {"stmts": [{"k": "assign", "place": {"l": l_x, "p": [], "ty": item_ty},
+                                    "rv": {"k": "use", "op": {"k": "move", "place": {"l": l_n, "p": [{"dc": 1, "n": "Some"}, {"f": 0, "n": "0"}], "ty": item_ty}}}, "loc": loc}] + stmts,
+                         "term": term}
+                m["blocks"].extend([entry, head, test, bodyb])
+                nxt = h
+        b["term"] = {"k": "goto", "target": nxt, "loc": loc}
+
+
 def desugar_ne(m, prog):
     """`a != b` on a crate type is the provided method `PartialEq::ne` = `!eq(a, b)`; written out so that the type's own `eq` can be spliced in."""
     for b in list(m["blocks"]):
@@ -315,6 +409,7 @@ def inline_mir(prog, key, stop, maxdepth=4, _stack=(), max_blocks=6000, max_call
     prom = list(copy.deepcopy(fn.get("promoted") or []))
     inlined = []
     desugar_combinators(m, prog)
+    desugar_for_each(m, prog)
     desugar_ne(m, prog)
     # drop cleanup blocks' influence: keep them (ids must stay stable) but cut unwind edges
     for b in m["blocks"]:
